@@ -457,6 +457,78 @@ def run_bound_rule(ctx, prog, pfx='C05'):
                f.loc(add), ok, 'guards on the run length: %s' % (seen or 'none'))
 
 
+def kraft_rule(ctx, prog, pfx='C05'):
+    """make_tree(): a table whose code lengths do not satisfy the Kraft *equality* is marked with an error code in
+    the selector MTF slot; retrieve() returns that code as soon as a group selects the table; the codes are
+    distinguishable from valid table numbers"""
+    import witness
+    f = prog.func('decode', 'make_tree')
+    P = Prov(prog, f)
+    E = enumerators(f.module)
+    from prov import cmp_norm
+    marks, valid = [], []
+    for i in f.insns():
+        if i.op == 'store' and '.mtf[' in addr_key(P.addr(i.ops[1])):
+            v = strip_casts(P.expr(i.ops[0]))
+            gs = rules.guards(f, P, i.block.name)
+            kr = None
+            for b, e, pol in gs:
+                c, p2 = peel_cond(e)
+                cn = cmp_norm(c)
+                if cn and cn[2] == ('const', 1 << 20) and cn[0] in ('ne', 'eq') and strip_casts(cn[1])[0] == 'phi':
+                    kr = (cn[0] == 'ne') == (pol == p2)     # True: on the "sum != 2^20" side
+            if v[0] == 'select':
+                marks.append((i, v, kr))
+            else:
+                valid.append((i, v, kr))
+    okm = len(marks) == 1 and marks[0][2] is True
+    if okm:
+        v = marks[0][1]
+        c = cmp_norm(v[1])
+        a, b_ = strip_casts(v[2]), strip_casts(v[3])
+        okm = c is not None and c[0] == 'ult' and c[2] == ('const', 1 << 20) and a == ('const', E['ERR_INCOMPLT']) and \
+            b_ == ('const', E['ERR_PREFIX'])
+    okv = len(valid) == 1 and valid[0][2] is False and 'rs).t' in render(valid[0][1])
+    ctx.ob(pfx + '.kraft', 'make_tree(): Kraft sum < 2^20 marks the table ERR_INCOMPLT, > 2^20 ERR_PREFIX, and only a '
+           'sum of exactly 2^20 makes it usable', f.loc(marks[0][0]) if marks else f.loc(), okm and okv,
+           'marks: %s; valid: %s' % ([render(m[1])[:60] for m in marks], [render(x[1])[:40] for x in valid]))
+    # the accumulation: sum over k of C[k] << (20 - k)
+    acc = False
+    for i in f.insns():
+        if i.op == 'shl' and i.ty == ('int', 64):
+            e = strip_casts(P.expr(('reg', i.res)))
+            sh = strip_casts(e[3])
+            if sh[0] == 'bin' and sh[1] == 'sub' and strip_casts(sh[2]) == ('const', 20) and 'count' in render(e[2]):
+                acc = True
+    ctx.ob(pfx + '.kraft', 'make_tree(): the Kraft sum adds count[k] << (20 - k)', f.loc(), acc, '')
+    r = witness.check(ctx, 'decode', [
+        ('error marks cannot be mistaken for table numbers', 'ERR_INCOMPLT >= MAX_TREES && ERR_PREFIX >= MAX_TREES'),
+        ('code lengths 1..20', 'MIN_CODE_LENGTH == 1 && MAX_CODE_LENGTH == 20')])
+    for name, ok in r.items():
+        ctx.ob(pfx + '.kraft', name, 'src/decode.c', ok, 'evaluated by the compiler')
+    # retrieve(): returns rs->t exactly when rs->t >= MAX_TREES, before using the table
+    g = prog.func('decode', 'retrieve')
+    Pg = Prov(prog, g)
+    rs = ret_sources(g).get(None, [])
+    ok = len(rs) == 1
+    if ok:
+        gs = rules.guards(g, Pg, rs[0])
+        ok = False
+        for b, e, pol in gs:
+            c, p2 = peel_cond(e)
+            cn = cmp_norm(c)
+            if cn and cn[0] == 'uge' and cn[2] == ('const', 6) and (pol == p2) and \
+                    strip_casts(cn[1])[0] == 'load' and path_key_(strip_casts(cn[1])) == '.t':
+                ok = True
+    ctx.ob(pfx + '.kraft', 'retrieve() returns the mark of an unusable table as soon as a group selects it '
+           '(rs->t >= MAX_TREES)', g.loc(), ok, 'computed-return sites: %s' % rs)
+
+
+def path_key_(e):
+    from prov import path_key
+    return path_key(e[1][2])
+
+
 def err_table_rule(ctx, prog, pfx='C05'):
     """every error code has a message; codec routines return only members of the enum"""
     b = ctx.build()
@@ -499,6 +571,9 @@ def run(ctx):
     expandrules.parse_task_obligations(ctx, prog, 'C05')
     parse_fsm_rule(ctx, prog)
     err_table_rule(ctx, prog)
+    kraft_rule(ctx, prog)
+    from props import c06
+    c06.limits(ctx, prog)
     run_bound_rule(ctx, prog)
     import codecrules
     codecrules.emit_symbol_law(ctx, prog, 'C05')
